@@ -102,8 +102,12 @@ class Case:
 
 def drv(cmd, job, variant="asan", timeout=3600, env_extra=None, raw=False):
     """run the driver; returns list of Case in index order"""
+    if os.environ.get("VERIF_COV"):
+        variant = "cov-bundled" if variant.endswith("bundled") else "cov"
     exe = build.driver(variant)
     env = drv_env()
+    if os.environ.get("VERIF_COV"):
+        env["LLVM_PROFILE_FILE"] = os.path.join(os.environ["VERIF_COV"], "%s-%%9m.profraw" % variant)
     if env_extra:
         env.update(env_extra)
     r = subprocess.run([exe, cmd], input=job.encode() if isinstance(job, str) else job, stdout=subprocess.PIPE,
